@@ -144,6 +144,7 @@ type TLCJob struct {
 	OutFile  string
 	Defs     map[string]string // -D system properties
 	Coverage bool
+	Consts   map[string]string // constants of the cfg overridden for this run ("Slice" -> "3")
 }
 
 type TLCResult struct {
@@ -178,6 +179,14 @@ func (c *Ctx) runTLC(j TLCJob) TLCResult {
 			b, _ := os.ReadFile(f)
 			os.WriteFile(filepath.Join(dir, filepath.Base(f)), b, 0644)
 		}
+	}
+	if len(j.Consts) > 0 {
+		b, _ := os.ReadFile(filepath.Join(dir, filepath.Base(j.Cfg)))
+		txt := string(b)
+		for k, v := range j.Consts {
+			txt = regexp.MustCompile(`(?m)^(\s*)`+regexp.QuoteMeta(k)+`\s*=.*$`).ReplaceAllString(txt, "${1}"+k+" = "+v)
+		}
+		os.WriteFile(filepath.Join(dir, filepath.Base(j.Cfg)), []byte(txt), 0644)
 	}
 	if j.Workers == 0 {
 		j.Workers = runtime.NumCPU()
